@@ -24,6 +24,11 @@ theorem QB.mono {n m : Nat} {a b : BSt} (h : QB n a b) (hnm : n ≤ m) : QB m a 
 theorem QB.of_ths {s s' : BSt} (h1 : s'.siteCnt = s.siteCnt) (h2 : s'.ths = s.ths) : QB 0 s s' :=
   ⟨h1, fun i => by simp [BSt.th, h2]⟩
 
+theorem QB.one_of_ths {s s' : BSt} (h1 : s'.siteCnt = s.siteCnt) (h2 : s'.ths = s.ths) : QB 1 s s' :=
+  (QB.of_ths h1 h2).mono (by omega)
+
+theorem QB.one_refl (s : BSt) : QB 1 s s := (QB.refl s).mono (by omega)
+
 theorem QB.setTh (n : Nat) (s : BSt) (j : Nat) (f : Th → Th)
     (hf : ∀ t, (f t).qStmts.length ≤ t.qStmts.length + n) : QB n s (s.setTh j f) :=
   ⟨rfl, fun i => by
@@ -101,7 +106,7 @@ theorem frontCall_qb (s : BSt) (a lgi : Nat) (kind : Kind) (lvl len cont : Nat) 
   unfold frontCall
   dsimp only
   split
-  · exact (QB.of_ths rfl rfl).mono (by omega)
+  · exact QB.one_of_ths rfl rfl
   · exact enqFlow_qb ..
 
 theorem resume_qb (s : BSt) (a : Nat) : QB 1 s (resume s a).1 := by
@@ -110,16 +115,16 @@ theorem resume_qb (s : BSt) (a : Nat) : QB 1 s (resume s a).1 := by
   · exact enqFlow_qb ..
   · split <;> exact enqFlow_qb ..
   · split
-    · exact (QB.of_ths rfl rfl).mono (by omega)
-    · exact (QB.refl s).mono (by omega)
-  · exact (QB.refl s).mono (by omega)
+    · exact QB.one_of_ths rfl rfl
+    · exact QB.one_refl s
+  · exact QB.one_refl s
 
 theorem withLogger_qb (s : BSt) (a gid : Nat) (k : Nat → BSt × String) (hk : ∀ lgi, QB 1 s (k lgi).1) :
     QB 1 s (withLogger s a gid k).1 := by
   unfold withLogger
   split
   · exact (hk _).trans_zero (QB.of_ths rfl rfl)
-  · exact (QB.refl s).mono (by omega)
+  · exact QB.one_refl s
 
 theorem reapSinks_qb (sids : List Nat) : ∀ (s : BSt), QB 0 s (reapSinks s sids) := by
   unfold reapSinks
@@ -146,9 +151,11 @@ theorem applyFront_qb (s : BSt) (f : FOp) : QB 1 s (applyFront s f).1 := by
     split
     · exact hrefl
     · split
-      · have h1 : QB 0 s (s.setActor a (fun x => { x with alive := false })) := QB.of_ths rfl rfl
-        have h2 := h1.trans_zero (QB.setTh 0 _ _ (fun t => { t with valid := false }) (fun t => by simp))
-        exact (h2.trans_zero (QB.of_ths rfl rfl)).mono (by omega)
+      · next i _ =>
+        have h1 : QB 0 s (s.setActor a (fun x => { x with alive := false })) := QB.of_ths rfl rfl
+        have h2 := h1.trans_zero (QB.setTh 0 _ i (fun t => { t with valid := false }) (fun t => by simp))
+        have h3 := h2.trans_zero (QB.of_ths (s' := { (s.setActor a (fun x => { x with alive := false })).setTh i (fun t => { t with valid := false }) with invalidCnt := counterMod s.cfg (s.invalidCnt + 1) }) rfl rfl)
+        exact QB.mono h3 (by omega)
       · exact hsame _ rfl rfl
   | resume a =>
     simp only [applyFront]
@@ -226,7 +233,7 @@ theorem applyFront_qb (s : BSt) (f : FOp) : QB 1 s (applyFront s f).1 := by
 theorem injStep_qb (site k : Nat) (s : BSt) (f : FOp) : QB 1 s (PC.injStep site k s f) := by
   unfold PC.injStep PC.injRes
   split
-  · exact (QB.of_ths rfl rfl).mono (by omega)
+  · exact QB.one_of_ths rfl rfl
   · exact (applyFront_qb s f).trans_zero (QB.of_ths rfl rfl)
 
 theorem injFold_qb (site k : Nat) : ∀ (ops : List FOp) (s : BSt), QB ops.length s (ops.foldl (PC.injStep site k) s)
@@ -280,7 +287,9 @@ theorem budget_find : ∀ (t : List (Nat × Nat × List FOp)) (K : Nat) (e : Nat
     · simp only [hx, and_self, decide_true] at h
       cases h
       have := budget_succ_le t K
-      rw [if_pos ⟨hx.1, by omega⟩, if_neg (by omega)]
+      have e1 : x.1 = 3 ∧ K ≤ x.2.1 := ⟨hx.1, by omega⟩
+      have e2 : ¬ (x.1 = 3 ∧ K + 1 ≤ x.2.1) := by omega
+      rw [if_pos e1, if_neg e2]
       omega
     · simp only [hx, decide_false] at h
       have := budget_find t K e h
@@ -305,7 +314,7 @@ theorem runInj3_budget (table : List (Nat × Nat × List FOp)) (s : BSt) (i : Na
     intro x hx
     simp [PC.siteK, hx]
   split
-  · rw [hK _ rfl]
+  · rw [hK { s with siteCnt := (3, PC.siteK s 3) :: s.siteCnt.filter (·.1 ≠ 3) } rfl]
     have := budget_succ_le table (PC.siteK s 3)
     show (s.th i).qStmts.length + _ ≤ _
     omega
